@@ -4,7 +4,12 @@ cd /verif
 for D in twins/*/; do
   ID=$(basename $D); P=${ID%%-*}
   CHK=$(python3 -c "import json;print(json.load(open('$D/meta.json'))['bad_caught_by'])")
+  # the good twin must be silent on EVERY check of its side (library or tool), not only on those of its own pair:
+  # two false alarms (C06 on C07-t1/C07-w2) hid for a day because only the pair's own checks were run (TWINS_FAST=1 restores that)
   OTHERS=""; [ "$CHK" != "$P" ] && OTHERS="$P"
+  if [ -z "${TWINS_FAST:-}" ] && [ "$P" != C17 ]; then
+    OTHERS=$(for c in C06 C07 C09 C13 C12; do [ "$c" != "$CHK" ] && printf "%s " "$c"; done)
+  fi
   echo "=== $ID (bad must be caught by $CHK)"
   tools/twincheck.sh $D $CHK $OTHERS 2>&1 | grep -v conda
 done
